@@ -838,6 +838,7 @@ impl BackupManager {
         let manifest_layout = read_manifest_layout(&manifest_path)?;
         let mut entries = Vec::new();
         let mut max_wal_file_id: Option<u64> = None;
+        let mut snapshot_file = None;
 
         let all_wal_segments = list_wal_segments_in_dir(&self.data_dir)?;
         let modified_since_parent = |path: &Path| -> bool {
@@ -891,6 +892,28 @@ impl BackupManager {
                     a_id.cmp(&b_id).then_with(|| a.cmp(b))
                 });
                 manifest.wal_segments.dedup();
+
+                // The MANIFEST shipped with this archive names a snapshot. If a snapshot was
+                // taken since the parent backup, the parent chain does not contain it (and the
+                // WAL it covers may already be compacted away), so it has to travel with the
+                // incremental; otherwise the restored directory cannot be started.
+                if let Some(snapshot_name) = &manifest.latest_snapshot {
+                    if parent_metadata.snapshot_file.as_deref() != Some(snapshot_name.as_str()) {
+                        let snapshot_path = self.data_dir.join(snapshot_name);
+                        anyhow::ensure!(
+                            snapshot_path.exists(),
+                            "MANIFEST references missing snapshot '{}' in {}",
+                            snapshot_name,
+                            self.data_dir.display()
+                        );
+                        snapshot_file = Some(snapshot_name.clone());
+                        entries.push(ArchiveEntry::from_path(
+                            snapshot_name.clone(),
+                            snapshot_path,
+                        ));
+                    }
+                }
+
                 let manifest_bytes =
                     serde_json::to_vec_pretty(&manifest).context("Failed to serialize MANIFEST")?;
                 entries.push(ArchiveEntry::from_bytes("MANIFEST", manifest_bytes));
@@ -957,7 +980,7 @@ impl BackupManager {
             parent_id: Some(parent_id),
             description,
             max_wal_file_id,
-            snapshot_file: None,
+            snapshot_file,
         };
 
         // Save metadata
